@@ -122,7 +122,10 @@ def registry():
     for m in ("least_confident", "margin_sampling", "entropy"):
         E.append(Entry(f"UncertaintySampling[{m}]", lambda c, s, m=m: P.UncertaintySampling(method=m, random_state=s), "clf", altkw, samplewise=True))
     E.append(Entry("EpistemicUncertaintySampling", lambda c, s: P.EpistemicUncertaintySampling(random_state=s), "clf", clfkw, samplewise=True, binary=True))
-    E.append(Entry("EpistemicUncertaintySampling[precompute]", lambda c, s: P.EpistemicUncertaintySampling(precompute=True, random_state=s), "clf", clfkw, samplewise=True, binary=True))
+    # precompute=True interpolates the scores linearly on a grid that extends to the largest class frequency among the CANDIDATES
+    # (scipy griddata triangulates it): the value of a sample depends on the extent of the grid, i.e. on the other candidates ->
+    # not a sample-wise scorer for C08's restriction / permutation clause (any index set is still a valid candidate set for C01)
+    E.append(Entry("EpistemicUncertaintySampling[precompute]", lambda c, s: P.EpistemicUncertaintySampling(precompute=True, random_state=s), "clf", clfkw, samplewise=True, setdep=True, binary=True))
     E.append(Entry("MonteCarloEER", lambda c, s: P.MonteCarloEER(random_state=s), "clf", clfkw, samplewise=True, slow=True))
     E.append(Entry("ValueOfInformationEER", lambda c, s: P.ValueOfInformationEER(random_state=s), "clf", clfkw, feat=False, samplewise=True, slow=True))
     for m in ("KL_divergence", "vote_entropy", "variation_ratios"):
